@@ -384,6 +384,19 @@ pub fn run(ctx: &mut Ctx) {
         let v = check_totality(&input);
         record(&v, &input, st)
     });
+    // scale and geometry: inputs beyond the 64 KiB cap of the families above (one very long line, very many
+    // rejected lines, sliders with up to 9000 repeats / 3000 anchors) and sliders with hostile geometry
+    // (nearly collinear / coincident / far-apart points in multi-segment paths), in the four encodings
+    let cases = ctx.tier.pick(6_000u64, 60_000u64);
+    ctx.pbt("c01-scale", cases, 400, |t, st| {
+        let (text, family) = crate::gen::doc::gen_scale_doc(t);
+        let mut bytes = encode_text(&text, pick_enc(t));
+        let sentinel = if t.chance(70) { add_sentinel(&mut bytes) } else { None };
+        let input = Input { bytes, family, sentinel };
+        let _g = crate::watchdog::guard(&input.bytes);
+        let v = check_totality(&input);
+        record(&v, &input, st)
+    });
     drop(wd);
     #[cfg(feature = "tracing")]
     {
